@@ -13,12 +13,12 @@ Import ListNotations.
 (* File names are identifiers; two are reserved: "." and ".gitignore".  The engine looks at names only
    through path.Join, strings.Split(path,"/"), map lookup and slices.Contains, which are functions of the
    segment list as long as names are non-empty, contain no '/', and are neither "." nor "..". *)
-Definition name := N.
+Notation name := N (only parsing).
 Definition DOT : name := 0%N.
 Definition GI : name := 1%N.
-Definition path := list N.          (* segments; the walk root is [DOT], like Go's "." *)
-Definition bytes := list N.         (* strings that are compared or sorted as strings *)
-Definition ext := list N.           (* an extractor is identified by its Name() (the key of the engine's maps) *)
+Notation path := (list N) (only parsing).          (* segments; the walk root is [DOT], like Go's "." *)
+Notation bytes := (list N) (only parsing).         (* strings that are compared or sorted as strings *)
+Notation ext := (list N) (only parsing).           (* an extractor is identified by its Name() (the key of the engine's maps) *)
 
 Fixpoint ln_eqb (a b : list N) : bool :=
   match a, b with
@@ -81,17 +81,19 @@ Definition child_path (p : path) (n : name) : path :=
 
 (* ------------------------------------------------------------------ packages, extraction results *)
 Record pkg := { p_name : bytes; p_version : bytes; p_locs : list bytes }.
-Definition tpkg := (ext * pkg)%type.          (* package with r.Extractor set by the engine *)
+Notation tpkg := (list N * pkg)%type (only parsing).          (* package with r.Extractor set by the engine *)
 
 Inductive xres := XRes (pk : list pkg) (err : bool) | XPanic.
 
 Inductive event :=
 | EVisit (p : path)                 (* stats.AfterInodeVisited(p) *)
 | EReq (e : ext) (p : path)         (* e.FileRequired called on p *)
-| EExtract (e : ext) (p : path).    (* e.Extract called on p *)
+| EExtract (e : ext) (p : path)     (* e.Extract called on p *)
+| EOpenErr (e : ext) (p : path)     (* runExtractor: Open failed  (not observable by the harness: no hook) *)
+| EFstatErr (e : ext) (p : path).   (* runExtractor: Stat of the opened file failed (not observable) *)
 
 Inductive errkind := EkOpen | EkFstat | EkExtract.
-Definition erritem := (errkind * path)%type.
+Notation erritem := (errkind * list N)%type (only parsing).
 
 Inductive abort := AbInodes | AbCtx | AbFs | AbGi | AbSize.
 Inductive signal := Continue | SkipDir | Abort (a : abort).
@@ -120,7 +122,7 @@ Record cfg := {
   c_cancel : cancel }.
 
 (* ------------------------------------------------------------------ gitignore *)
-Definition matcher := (path * N)%type.         (* domain, pattern file *)
+Notation matcher := (list N * N)%type (only parsing).         (* domain, pattern file *)
 
 (* go-git pattern.Match: the domain must be a proper prefix of the matched path *)
 Definition gi_match (c : cfg) (m : matcher) (p : path) (isdir : bool) : bool :=
@@ -192,6 +194,9 @@ Definition cancelled (c : cfg) (st : state) : bool :=
 
 Inductive wres := WOk (st : state) (sg : signal) | WPanic (st : state) (pc : pcause).
 
+Definition wres_state (r : wres) : state :=
+  match r with WOk st _ => st | WPanic st _ => st end.
+
 (* ------------------------------------------------------------------ shouldSkipDir *)
 Definition should_skip_dir (c : cfg) (ms : list (option matcher)) (p : path) : bool :=
   if mem_path p (c_skip_list c) then true
@@ -204,8 +209,8 @@ Definition should_skip_dir (c : cfg) (ms : list (option matcher)) (p : path) : b
 
 (* ------------------------------------------------------------------ runExtractor *)
 Definition run_extractor (c : cfg) (e : ext) (p : path) (ff : ffault) (st : state) : wres :=
-  if ff_open ff then WOk (add_error st e EkOpen p) Continue
-  else if ff_fstat ff then WOk (add_error st e EkFstat p) Continue
+  if ff_open ff then WOk (add_error (add_event st (EOpenErr e p)) e EkOpen p) Continue
+  else if ff_fstat ff then WOk (add_error (add_event st (EFstatErr e p)) e EkFstat p) Continue
   else
     let st1 := begin_extract st e p in
     match c_extract c e p with
@@ -238,36 +243,51 @@ Fixpoint run_exts (c : cfg) (p : path) (size : Z) (ff : ffault) (es : list ext) 
   end.
 
 (* ------------------------------------------------------------------ handleFile *)
-Definition handle_file (c : cfg) (p : path) (nd : node) (fserr : bool) (st : state) : wres :=
+(* first part, common to every inode: counter, limit, stats hook, context, fserr *)
+Inductive pre_res := PreStop (st : state) (sg : signal) | PreGo (st : state).
+
+Definition hf_prelude (c : cfg) (p : path) (fserr : bool) (st : state) : pre_res :=
   let st1 := inc_inodes st in
-  if (0 <? c_max_inodes c)%Z && (c_max_inodes c <? s_inodes st1)%Z then WOk st1 (Abort AbInodes)
+  if (0 <? c_max_inodes c)%Z && (c_max_inodes c <? s_inodes st1)%Z then PreStop st1 (Abort AbInodes)
   else
     let st2 := visit st1 p in
-    if cancelled c st2 then WOk st2 (Abort AbCtx)
-    else if fserr then (if c_fatal c then WOk st2 (Abort AbFs) else WOk st2 Continue)
-    else
+    if cancelled c st2 then PreStop st2 (Abort AbCtx)
+    else if fserr then (if c_fatal c then PreStop st2 (Abort AbFs) else PreStop st2 Continue)
+    else PreGo st2.
+
+(* d.Type().IsDir() branch *)
+Definition hf_dir (c : cfg) (p : path) (ch : list node) (st2 : state) : wres :=
+  if c_gitignore c then
+    let pushed :=
+      if should_skip_dir c (s_stack st2) p then Some None     (* EmptyGitignore *)
+      else match parse_dir_gi p ch with
+           | GiErr => None                                       (* return err: nothing appended *)
+           | GiOk m => Some m
+           end in
+    match pushed with
+    | None => WOk st2 (Abort AbGi)
+    | Some m =>
+        let st3 := set_stack st2 (m :: s_stack st2) in
+        if should_skip_dir c (s_stack st3) p then WOk st3 SkipDir else WOk st3 Continue
+    end
+  else if should_skip_dir c (s_stack st2) p then WOk st2 SkipDir else WOk st2 Continue.
+
+(* the rest of handleFile for a non-directory *)
+Definition hf_file (c : cfg) (p : path) (k : kind) (size : Z) (ff : ffault) (st2 : state) : wres :=
+  let accepted := match k with Reg => true | Sym => c_symlinks c | Special => false end in
+  if negb accepted then WOk st2 Continue
+  else if c_gitignore c && gi_match_stack c (s_stack st2) p false then WOk st2 Continue
+  else run_exts c p size ff (c_exts c) false st2.
+
+Definition handle_file (c : cfg) (p : path) (nd : node) (fserr : bool) (st : state) : wres :=
+  match hf_prelude c p fserr st with
+  | PreStop st' sg => WOk st' sg
+  | PreGo st2 =>
       match nd with
-      | Dir _ ch _ =>
-          if c_gitignore c then
-            let pushed :=
-              if should_skip_dir c (s_stack st2) p then Some None     (* EmptyGitignore *)
-              else match parse_dir_gi p ch with
-                   | GiErr => None                                       (* return err: nothing appended *)
-                   | GiOk m => Some m
-                   end in
-            match pushed with
-            | None => WOk st2 (Abort AbGi)
-            | Some m =>
-                let st3 := set_stack st2 (m :: s_stack st2) in
-                if should_skip_dir c (s_stack st3) p then WOk st3 SkipDir else WOk st3 Continue
-            end
-          else if should_skip_dir c (s_stack st2) p then WOk st2 SkipDir else WOk st2 Continue
-      | File _ k size _ ff =>
-          let admitted := match k with Reg => true | Sym => c_symlinks c | Special => false end in
-          if negb admitted then WOk st2 Continue
-          else if c_gitignore c && gi_match_stack c (s_stack st2) p false then WOk st2 Continue
-          else run_exts c p size ff (c_exts c) false st2
-      end.
+      | Dir _ ch _ => hf_dir c p ch st2
+      | File _ k size _ ff => hf_file c p k size ff st2
+      end
+  end.
 
 (* postHandleFile, run by `defer`: wc.gitignores[:len-1] panics on an empty slice *)
 Definition post (c : cfg) (nd : node) (r : wres) : wres :=
@@ -498,6 +518,8 @@ Definition scan (c : cfg) (roots : list node) : scan_outcome :=
   end.
 
 (* ------------------------------------------------------------------ observations *)
+Definition observable (e : event) : bool :=
+  match e with EOpenErr _ _ | EFstatErr _ _ => false | _ => true end.
 Definition is_visit (e : event) : bool := match e with EVisit _ => true | _ => false end.
 Fixpoint visits (l : list event) : list path :=
   match l with [] => [] | EVisit p :: l' => p :: visits l' | _ :: l' => visits l' end.
@@ -505,3 +527,7 @@ Fixpoint calls (l : list event) : list (ext * path) :=
   match l with [] => [] | EExtract e p :: l' => (e, p) :: calls l' | _ :: l' => calls l' end.
 Fixpoint reqs (l : list event) : list (ext * path) :=
   match l with [] => [] | EReq e p :: l' => (e, p) :: reqs l' | _ :: l' => reqs l' end.
+
+(* the Extract calls of one RunFS over tree t from a fresh walk context *)
+Definition fs_result (c : cfg) (t : node) : wres := run_fs c t init_state.
+Definition fs_calls (c : cfg) (t : node) : list (ext * path) := calls (s_events (wres_state (fs_result c t))).
